@@ -33,6 +33,7 @@ class QuaHoldList(HoldList[QuaHold], QuaNoteList[QuaHold]):
         df.offset = df.offset.fillna(0)
         df.column = df.column.fillna(0)
         df.length = df.length.fillna(0)
+        df.keysounds = df.keysounds.apply(lambda k: k if isinstance(k, list) else [])
         return QuaHoldList(df)
 
     def to_yaml(self):
